@@ -111,6 +111,88 @@ def chdir_sequences(ds, scratch):
     return n, fails
 
 
+def symlink_destinations(ds, scratch):
+    """The destination name is a symbolic link (to a file beside it through a relative target, to a file elsewhere through
+    an absolute target, dangling), the call is made from another directory than the link's: afterwards reading the named
+    path gives exactly the serialisation, and apart from the named entry and the file the link really led to, no entry
+    of the tree — the working directory included — was created, removed or changed."""
+    fails, n = [], 0
+    cwd = os.getcwd()
+    old_tmp = tempfile.tempdir
+    root = os.path.join(scratch, "links")
+    tmpd = os.path.join(scratch, "tmp_links")
+
+    def snap():
+        out = {}
+        for dp, dn, fn in os.walk(root):
+            for f in fn + [x for x in dn if os.path.islink(os.path.join(dp, x))]:
+                p = os.path.join(dp, f)
+                rel = os.path.relpath(p, root)
+                if os.path.islink(p):
+                    out[rel] = ("link", os.readlink(p), open(p, "rb").read() if os.path.exists(p) else None)
+                else:
+                    out[rel] = ("file", open(p, "rb").read())
+        return out
+    try:
+        for kind in ("relative-target", "absolute-target", "dangling", "relative-target-up"):
+            for fmt, doc in (("json", ds[0]), ("provn", ds[-1]), ("xml", ds[0])):
+                shutil.rmtree(root, ignore_errors=True)
+                shutil.rmtree(tmpd, ignore_errors=True)
+                os.makedirs(os.path.join(root, "sub"))
+                os.makedirs(os.path.join(root, "elsewhere"))
+                os.makedirs(tmpd)
+                tempfile.tempdir = tmpd
+                link = os.path.join(root, "sub", "out." + fmt)
+                if kind == "relative-target":
+                    open(os.path.join(root, "sub", "data.json"), "wb").write(b"OLD CONTENT")
+                    os.symlink("data.json", link)
+                    real = "sub/data.json"
+                elif kind == "relative-target-up":
+                    open(os.path.join(root, "elsewhere", "data.json"), "wb").write(b"OLD CONTENT")
+                    os.symlink("../elsewhere/data.json", link)
+                    real = "elsewhere/data.json"
+                elif kind == "absolute-target":
+                    open(os.path.join(root, "elsewhere", "data.json"), "wb").write(b"OLD CONTENT")
+                    os.symlink(os.path.join(root, "elsewhere", "data.json"), link)
+                    real = "elsewhere/data.json"
+                else:
+                    os.symlink("nothing-here.json", link)
+                    real = "sub/nothing-here.json"
+                open(os.path.join(root, "data.json"), "wb").write(b"A FILE OF THE WORKING DIRECTORY")
+                expected = doc.serialize(format=fmt).encode("utf-8")
+                before = snap()
+                n += 1
+                os.chdir(root)
+                try:
+                    with mock.patch("builtins.print"):
+                        doc.serialize("sub/out." + fmt, format=fmt)
+                    raised = None
+                except Exception as e:
+                    raised = repr(e)[:200]
+                finally:
+                    os.chdir(cwd)
+                after = snap()
+                case = {"name": "sub/out." + fmt, "destination_is": "a symbolic link, " + kind, "format": fmt}
+                if raised:
+                    fails.append(dict(case, what="serialize to a name that is a symbolic link raised", exc=raised))
+                    continue
+                try:
+                    got = open(link, "rb").read()
+                except Exception as e:
+                    got = repr(e)
+                if got != expected:
+                    fails.append(dict(case, what="reading the named file does not give the serialisation", got=str(got[:60])))
+                ch = [f for f in sorted(set(before) | set(after)) if before.get(f) != after.get(f) and f not in ("sub/out." + fmt, real)]
+                if ch:
+                    fails.append(dict(case, what="serialize changed a file other than the named one", files=ch))
+                if os.listdir(tmpd):
+                    fails.append(dict(case, what="a temp file was left behind after a successful write"))
+    finally:
+        os.chdir(cwd)
+        tempfile.tempdir = old_tmp
+    return n, fails
+
+
 def snapshot(root):
     out = {}
     for dp, dn, fn in os.walk(root):
@@ -391,6 +473,14 @@ def run(tier, seed, log, model_runs=True, enlarged=False):
             violations.append({"kind": "harness-error", "what": "harness error", "detail": traceback.format_exc()[-1500:]})
         for f in cd_fails[:3]:
             violations.append({"kind": "failing-input", "failure": f, "case": {"name": f.get("name"), "sequence": "chdir"}})
+        try:
+            n_ln, ln_fails = symlink_destinations(ds, scratch)
+        except Exception:
+            n_ln, ln_fails = 0, []
+            violations.append({"kind": "harness-error", "what": "harness error", "detail": traceback.format_exc()[-1500:]})
+        for f in ln_fails[:3]:
+            violations.append({"kind": "failing-input", "failure": f, "case": {"name": f.get("name"), "destination": f.get("destination_is")}})
+        n_cd += n_ln
         log("ran %d file-write cases and %d calls in working-directory sequences in %.1fs" % (len(recs), n_cd, time.time() - t0))
         # correspondence: the model's destination path vs the file actually written
         if model_runs:
@@ -422,7 +512,7 @@ def run(tier, seed, log, model_runs=True, enlarged=False):
     coverage = {
         "evaluations": len(recs),
         "distinct_nontrivial": len({(r.get("name"), r.get("fmt"), r.get("preexisting"), str(r.get("fault"))) for r in recs if not r.get("refused")}),
-        "rule": "working-directory sequences (one relative name written from directory A, B, A, C, B: 3 names x 5 calls); file-write cases = format x file name (relative, nested, absolute, spaces, non-ASCII, '#', '?', ';', ':', file: URL) "
+        "rule": "working-directory sequences (one relative name written from directory A, B, A, C, B: 3 names x 5 calls); destinations that are symbolic links (relative target beside the link or in another directory, absolute target, dangling; called from another directory; 4 x 3 formats); file-write cases = format x file name (relative, nested, absolute, spaces, non-ASCII, '#', '?', ';', ':', file: URL) "
                 "x pre-existing destination or not x temp directory on the same / on another file system x fault (none, the k-th write call of the stream, the flush at close, the final move, a file-size limit at half the document so that the operating system cuts the write short); each runs "
                 "in a scratch directory with its own temp directory; distinct = distinct (name, format, preexisting, fault)",
         "samples": recs[:2] + recs[-2:],
